@@ -144,6 +144,8 @@ def rmtree(path: Path, directory_exceptions: set[Path]) -> None:
     """
     files: list[Path] = []
     folders: list[Path] = []
+    # directory_exceptions (#static) are resolved paths: compare like with like
+    path = path.resolve()
 
     exception_paths: set[Path] = set()
     for directory_exception in directory_exceptions:
